@@ -625,7 +625,8 @@ fn check_case(case: &Case, l: &mut Local) {
 
 // ---- constants at the edges of the number kinds, written in the text or supplied through the API
 const API_VALUES: [f64; 12] = [1e19, -1e19, 9.3e18, 1.8446744073709552e19, 9007199254740992.0, 4294967296.0, 3.0, -2.0, 0.5, -0.0, 1e-7, 123456789.125];
-const API_TEMPLATES: [(&str, &str); 4] = [
+const API_TEMPLATES: [(&str, &str); 5] = [
+    ("where-constant-derived-from-it", "min x\ns.t.\n    x + y >= D\n    x <= 7\nwhere\n    let D = 2 * K + 1\n"),
     ("coefficient", "min x\ns.t.\n    K * x + y >= 1\n    x <= 7\n"),
     ("right-hand-side", "min x + y\ns.t.\n    x + y >= K\n"),
     ("divisor-and-offset", "max x / K + K\ns.t.\n    x + y <= 3\n"),
@@ -641,8 +642,9 @@ fn api_constant_case(i: u64, l: &mut Local) {
     }
     let lit = if v.is_sign_negative() { format!("0 - {lit}") } else { lit };
     let define = "define\n    x as Real(0, 9)\n    y as Real(0, 9)\n".replace("\\n", "\n");
-    let inline = format!("{body}where\n    let K = {lit}\n{define}").replace("\\n", "\n");
-    let api = format!("{body}{define}").replace("\\n", "\n");
+    // a template with its own where section gets K as its first constant
+    let inline = if body.contains("where\n") { format!("{}{define}", body.replace("where\n", &format!("where\n    let K = {lit}\n"))) } else { format!("{body}where\n    let K = {lit}\n{define}") };
+    let api = format!("{body}{define}");
     let case = |what: String| json!({"template": tname, "value": v, "text_inline": inline, "text_api": api, "what": what});
     let a = crate::core::catch(|| compile_text(&inline, vec![])).unwrap_or_else(|p| Err(format!("panic: {p}")));
     let b = crate::core::catch(|| compile_text(&api, vec![Constant::from_primitive("K", Primitive::Number(v))])).unwrap_or_else(|p| Err(format!("panic: {p}")));
@@ -780,7 +782,7 @@ pub fn run(mut run: Run) -> ! {
     run.case_timeout_s = 60.0;
     let quick = run.quick();
     let depth = if quick { 1 } else { 2 };
-    run.rule = "generator-AST models (objective family and constraint family of C02/C01 over bounded declarations, objectives over three variables with different ranges, every row named) are expressed through: the fluent builder via operator overloads and helper functions (three operand spellings: Expr op Expr only; the most specific overload per operand pair over i32/f64 literals, Var handles, bool and helper functions over Var items; f64-only literals with Expr op &Expr) with EVERY call order (objective at each of the k+1 positions, every split of the constraints between with and with_all, satisfy explicit or defaulted, with and without two declared-but-unused variables and a decoy objective that the real objective call has to override), source text with inline constants, source text with the constants supplied through the API, PipeRunner chains (Compiler>PreModel>Model>LinearModel>MILP and >Auto; for continuous models also >RealSolver and >StandardLinearModel>Tableau>StepByStepSimplex), RoocSolver one-shot, plus 4 templates x 12 constants at the edges of the number kinds (1e19, 2^64, 2^53, 2^32, -0, 1e-7 ...) written in the text or supplied through the API, plus compiled-in macro models that use every rule of constraint! (<=, >=, ==, <, >, ->, <->, bare logic; labelled and unlabelled), expr! with -> and <->, and every scalar and array declaration form of vars!; linear models are compared row for row (modulo unused builder variables), verdicts and optimal values across doors, pipe stage outputs with direct calls, values read back by variable name through every solving door (each declared variable has a value inside its domain and the source rows hold there), and values read back through handles, names and eval with the reference semantics; distinct = source texts; non-trivial = compiles".into();
+    run.rule = "generator-AST models (objective family and constraint family of C02/C01 over bounded declarations, objectives over three variables with different ranges, every row named) are expressed through: the fluent builder via operator overloads and helper functions (three operand spellings: Expr op Expr only; the most specific overload per operand pair over i32/f64 literals, Var handles, bool and helper functions over Var items; f64-only literals with Expr op &Expr) with EVERY call order (objective at each of the k+1 positions, every split of the constraints between with and with_all, satisfy explicit or defaulted, with and without two declared-but-unused variables and a decoy objective that the real objective call has to override), source text with inline constants, source text with the constants supplied through the API, PipeRunner chains (Compiler>PreModel>Model>LinearModel>MILP and >Auto; for continuous models also >RealSolver and >StandardLinearModel>Tableau>StepByStepSimplex), RoocSolver one-shot, plus 5 templates (one derives a where-constant from the supplied one) x 12 constants at the edges of the number kinds (1e19, 2^64, 2^53, 2^32, -0, 1e-7 ...) written in the text or supplied through the API, plus compiled-in macro models that use every rule of constraint! (<=, >=, ==, <, >, ->, <->, bare logic; labelled and unlabelled), expr! with -> and <->, and every scalar and array declaration form of vars!; linear models are compared row for row (modulo unused builder variables), verdicts and optimal values across doors, pipe stage outputs with direct calls, values read back by variable name through every solving door (each declared variable has a value inside its domain and the source rows hold there), and values read back through handles, names and eval with the reference semantics; distinct = source texts; non-trivial = compiles".into();
     run.assume("identical expression trees must give identical linear models; the builder keeps unused variables, which are projected away; tolerance 1e-6 on optimal values and read-back");
     // the quick tier uses the full declaration / constant menus at context depth 1
     let n2 = c02::family_size_pub(depth, false);
